@@ -4,7 +4,9 @@ package main
 
 import (
 	"fmt"
+	"go/constant"
 	"go/token"
+	"go/types"
 	"strings"
 
 	"golang.org/x/tools/go/ssa"
@@ -220,7 +222,47 @@ func rC13Readiness(w *World, r *Report) {
 			}
 		}
 		if flag == nil {
-			ru.Bad(key+"/children", w.IPos(ret), "the offer is not conditioned on a flag computed by the scan over the children")
+			// no flag (e.g. the scan leaves for the next vertex directly): decide the meaning instead of the shape -
+			// with the child of the current iteration pending or in progress, the offer of this vertex is unreachable
+			// before the scan moves on to the next vertex, and the scan itself does move on
+			ig := buildIG(fn)
+			child := rangeElem(ch)
+			var loads []ssa.Value
+			eachInstr(fn, func(in ssa.Instruction) {
+				if u, ok := in.(*ssa.UnOp); ok && u.Op == token.MUL {
+					if b, ok := loadOfFieldNamed(u, "status"); ok && b == child {
+						loads = append(loads, u)
+					}
+				}
+			})
+			if child == nil || len(loads) == 0 {
+				ru.Bad(key+"/children", w.IPos(ret), "the offer is not conditioned on the scan over the children (no read of a child's status)")
+				continue
+			}
+			outerFirst := ssa.Instruction(hdr.Instrs[0])
+			for _, name := range []string{"runPending", "runInProgress", "runDone", "runSkip"} {
+				init := triEnv{}
+				for _, l := range loads {
+					init[l] = vsVal{c: constant.MakeInt64(st[name])}
+				}
+				reached, ok := ig.reachVSInit(ig.edgeStart(ch, 0), func(in ssa.Instruction) bool { return in == outerFirst }, nil, init)
+				k2 := fmt.Sprintf("%s/children/child=%s", key, name)
+				if !ok {
+					ru.Undecided(k2, w.IPos(ret), "state budget exhausted")
+					continue
+				}
+				blocking := name == "runPending" || name == "runInProgress"
+				switch {
+				case blocking && reached[ig.idx[ret]]:
+					ru.Bad(k2, w.IPos(ret), "with a child that is "+name+" the vertex can still be offered: the parent could start before this dependency finished")
+				case blocking:
+					ru.OK(k2, w.IPos(ret), "a "+name+" child makes the offer of this vertex unreachable")
+				case !reached[ig.idx[ret]] && !reached[ig.first[ch]]:
+					ru.Bad(k2, w.IPos(ret), "a child that is "+name+" neither lets the scan continue nor the vertex be offered")
+				default:
+					ru.OK(k2, w.IPos(ret), "a "+name+" child does not block")
+				}
+			}
 			continue
 		}
 		// flag starts false
@@ -444,10 +486,33 @@ func rC13RetryLoop(w *World, r *Report) {
 }
 
 // doneSends: sends on a channel parameter named done (type chan IDErr) in fn.
+// isCompletionChan: a channel of completion messages - a struct carrying a vertex ID and an error (whatever the
+// struct is called and wherever it is declared).
+func isCompletionChan(t types.Type) bool {
+	ch, ok := t.Underlying().(*types.Chan)
+	if !ok {
+		return false
+	}
+	st, ok := ch.Elem().Underlying().(*types.Struct)
+	if !ok {
+		return false
+	}
+	hasID, hasErr := false, false
+	for i := 0; i < st.NumFields(); i++ {
+		switch typeString(st.Field(i).Type()) {
+		case "dag.ID":
+			hasID = true
+		case "error":
+			hasErr = true
+		}
+	}
+	return hasID && hasErr
+}
+
 func doneSends(fn *ssa.Function) []*ssa.Send {
 	var out []*ssa.Send
 	eachInstr(fn, func(in ssa.Instruction) {
-		if s, ok := in.(*ssa.Send); ok && strings.HasSuffix(typeString(s.Chan.Type()), "IDErr") {
+		if s, ok := in.(*ssa.Send); ok && isCompletionChan(s.Chan.Type()) {
 			out = append(out, s)
 		}
 	})
@@ -485,7 +550,7 @@ func rC13Completion(w *World, r *Report) {
 		var problems []string
 		isSend := func(in ssa.Instruction) bool {
 			_, ok := in.(*ssa.Send)
-			return ok && strings.HasSuffix(typeString(in.(*ssa.Send).Chan.Type()), "IDErr")
+			return ok && isCompletionChan(in.(*ssa.Send).Chan.Type())
 		}
 		isExit := func(in ssa.Instruction) bool {
 			switch in.(type) {
